@@ -24,7 +24,8 @@ META = {
             "p of length n against ALL n! permutations q (all ordered pairs "
             "(p, q) of equal length n <= 6 at the quick tier and n <= 7 at "
             "the thorough tier are enumerated, 533 417 resp. 25 935 017 "
-            "pairs, int64 arrays), counted under labels swap_pairs_len=n; "
+            "pairs, int64 arrays), every pair counted as one evaluation under "
+            "the labels swap_pairs_len=n; "
             "'swap_pair' cases = random / near / rotated / reversed pairs of "
             "length 1..40 in the storage types int8/int16/int64/uint8 and "
             "the type of the package's permutation space, non-trivial when "
@@ -236,8 +237,9 @@ def check_swap_row(ctx: Ctx, case: dict) -> None:
                 f"swap_distance({p}, {list(q)}) = {got!r}, but the minimum "
                 f"number of transpositions is {want}")
     require(pa.tolist() == p, "swap_distance modified its argument")
-    ctx.rec.case(case, nontrivial=False, labels=[])
-    ctx.rec.label(f"swap_pairs_len={n}", len(tups))
+    # every ordered pair (p, q) is one evaluated case
+    ctx.rec.bulk(len(tups), f"swap_pairs_len={n}")
+    ctx.rec.label("swap_rows")
 
 
 def check_swap_pair(ctx: Ctx, case: dict) -> None:
